@@ -332,6 +332,39 @@ impl COracle for Oracle {
         }
         self.honest.insert(stmt);
         self.seen += 1;
+        if self.seen == 1 {
+            // once per run: a client sends a DEGENERATE request point (the identity, the base point);
+            // the server's honest verifiable answer must verify, and the tamper battery must hold for it
+            if let Some(sv) = w.servers.iter().find(|s| s.model.key_id == x.key_id) {
+                let ident = RistrettoPoint::identity().compress().to_bytes();
+                let base = G.compress().to_bytes();
+                for (name, pb) in [("identity", ident), ("base point", base)] {
+                    let pt = pp::Point::from(&pb[..]);
+                    let ev = match sv.server.eval(&pt, x.md, true) {
+                        Ok(e) => e,
+                        Err(_) => continue,
+                    };
+                    let js = serde_json::to_vec(&ev).map_err(|e| Violation::new("c.exchange", "json", e.to_string()))?;
+                    let v2: serde_json::Value = serde_json::from_slice(&js).map_err(|e| Violation::new("c.exchange", "json", e.to_string()))?;
+                    let qv = BASE64_STANDARD.decode(v2["output"].as_str().unwrap_or("")).unwrap_or_default();
+                    if qv.len() != 32 || v2["proof"].is_null() {
+                        continue;
+                    }
+                    let mut q2 = [0u8; 32];
+                    q2.copy_from_slice(&qv);
+                    let r2 = Rec { pk_bytes: x.pk_bytes.to_vec(), md: x.md, p: pb, q: q2, c: arr32(&v2["proof"]["c"]), s: arr32(&v2["proof"]["s"]) };
+                    if let Some(pkt2) = combined(&r2.pk_bytes, r2.md) {
+                        self.honest.insert((pkt2, r2.p, r2.q, r2.c, r2.s));
+                        let pkv = pp::ServerPublicKey::load_from_bincode(&r2.pk_bytes).map_err(|e| Violation::new("c.exchange", "pk", e.to_string()))?;
+                        if !pp::Client::verify(&pkv, &pt, &ev, x.md) {
+                            return Err(Violation::new("c13.incomplete", "degenerate_request", format!("the honest verifiable evaluation of the {} as request point does not verify", name)));
+                        }
+                        self.battery(ctx, &r2)?;
+                        ctx.stats.probe("degenerate_request_points_checked");
+                    }
+                }
+            }
+        }
         if !self.long || self.seen % 16 == 1 {
             self.battery(ctx, &rec)?;
             self.forging_prover(ctx, w, x, &rec)?;
